@@ -8,6 +8,7 @@ import (
 	"math/rand"
 	"os"
 	"runtime"
+	rtdebug "runtime/debug"
 	"strconv"
 
 	"bounded/report"
@@ -53,6 +54,10 @@ func Run(prop, tierName string, seed int64) (*report.Report, error) {
 			tier.MaxNodes = n
 		}
 	}
+	if os.Getenv("VERIF_WORKER") == "" && os.Getenv("VERIF_SINGLE") == "" {
+		return coordinate(prop, tierName, seed)
+	}
+	rtdebug.SetGCPercent(400)
 	MuteStdout()
 	defer RestoreStdout()
 	// the environments the harness assumes must be what conv really builds
@@ -91,6 +96,16 @@ func Run(prop, tierName string, seed int64) (*report.Report, error) {
 	r.Property = prop
 	return r, nil
 }
+
+// IsWorker: this process is a worker of a coordinator; WriteWorker hands the
+// raw result over instead of writing a report.
+func IsWorker() bool { return os.Getenv("VERIF_WORKER") != "" }
+
+func WriteWorker(path string, r *report.Report) error { return writeWorkerResult(path, r) }
+
+var noSafe = os.Getenv("VERIF_NOSAFE") != "" // testing the coordinator only
+
+var partialRun = os.Getenv("VERIF_SKIP") != "" || os.Getenv("VERIF_ONLY") != ""
 
 var stdGroupsCache []*EnvGroup
 
@@ -148,7 +163,7 @@ func corpus(tier Tier, seed int64, barrier func(), submit func(t *Term, family s
 func runSemantic(prop string, tier Tier, seed int64, check CheckFn, contract string) *report.Report {
 	r := &report.Report{Contract: contract}
 	std := stdGroups()
-	pool := NewPool(prop, nWorkers(), func(w *Worker, c *Case) {
+	pool := NewPool(prop, func(w *Worker, c *Case) {
 		w.process(c, std, check)
 	})
 	var samples []string
@@ -173,13 +188,15 @@ func (w *Worker) process(c *Case, std []*EnvGroup, check CheckFn) {
 	}
 	t := c.T.Clone()
 	w.noteProgram(t)
-	exhaustive := c.Family == "exhaustive"
+	// in the exhaustive part every sub-program has been a program of a smaller
+	// size before (barrier between sizes) unless cases are being skipped
+	exhaustive := c.Family == "exhaustive" && !partialRun
 	for _, g := range groups {
 		if _, err := RefCheck(t, g.Gamma); err != nil {
 			// not a program of this environment (e.g. `on` in a map environment)
 			continue
 		}
-		if u := w.unsafeSub(t, g, exhaustive); u != nil {
+		if u := w.unsafeSub(t, g, exhaustive); u != nil && !noSafe {
 			// a sub-program yields an ill-typed value: check the contract on it
 			w.blocked++
 			sub := &Case{Seq: c.Seq, T: u.T, Family: c.Family + ", as sub-program of " + trunc(t.Src(), 160)}
